@@ -4,6 +4,7 @@ import (
 	"bytes"
 	"encoding/base64"
 	"encoding/xml"
+	"errors"
 	"fmt"
 	"io"
 	"net/http"
@@ -46,9 +47,12 @@ type c08Knobs struct {
 }
 
 type c08Step struct {
-	Kind string `json:"kind"` // emit | inner | tamper
+	Kind string `json:"kind"` // emit | inner | tamper | rekey
 	// emit: the IdP answers a request of the SP for session number Session
 	Session int `json:"session,omitempty"`
+	// emit: the k-th read from the xmlenc random source during this emission fails (0: none; a transient entropy fault)
+	RandFailAt int `json:"rand_read_fails_at,omitempty"`
+	// rekey: the SP rolls its key over (rsa1 <-> rsa3) and re-registers the same layout with the other certificate
 	// inner: foreign-IdP response, once in plaintext and once encrypted, with one defect inside
 	Defect   string `json:"defect,omitempty"`
 	RespSign string `json:"response_signed_by,omitempty"`  // none | trusted | mallory
@@ -159,7 +163,14 @@ func genEncrypt(g *Rng, tier string) *Plan {
 	p := &Plan{Knobs: mustJSON(k)}
 	ne := 2 + g.PickW(4, 3, 2)
 	for i := 0; i < ne; i++ {
-		p.Steps = append(p.Steps, mustJSON(c08Step{Kind: "emit", Session: g.PickW(5, 3, 2)}))
+		st := c08Step{Kind: "emit", Session: g.PickW(5, 3, 2)}
+		if g.Bool(0.12) {
+			st.RandFailAt = 1 + g.Intn(5)
+		}
+		p.Steps = append(p.Steps, mustJSON(st))
+		if i > 0 && g.Bool(0.2) {
+			p.Steps = append(p.Steps, mustJSON(c08Step{Kind: "rekey"}), mustJSON(c08Step{Kind: "emit", Session: g.PickW(5, 3, 2)}))
+		}
 	}
 	ns := g.PickW(2, 4, 3, 1)
 	for i := 0; i < ns; i++ {
@@ -374,12 +385,24 @@ func c08Session(i int) (*saml.Session, []string) {
 // ---------------------------------------------------------------- randomness recorder
 
 type c08Recorder struct {
-	r     io.Reader
-	on    bool
-	drawn []byte
+	r      io.Reader
+	on     bool
+	drawn  []byte
+	reads  int
+	failAt int // the failAt-th read while recording fails (0: none)
+	failed bool
 }
 
+var errC08Entropy = errors.New("getrandom: resource temporarily unavailable (injected)")
+
 func (c *c08Recorder) Read(p []byte) (int, error) {
+	if c.on {
+		c.reads++
+		if c.failAt > 0 && c.reads == c.failAt {
+			c.failed = true
+			return 0, errC08Entropy
+		}
+	}
 	n, err := c.r.Read(p)
 	if c.on {
 		c.drawn = append(c.drawn, p[:n]...)
@@ -454,6 +477,50 @@ type c08World struct {
 	ivs     map[string]int
 	ceks    map[string]int
 	emitted int
+	swapped bool   // the SP has rolled its key over: its registration now carries rsa3 where the layout says rsa1 and vice versa
+	reg     mapSPP // the IdP's registry
+}
+
+// currentLayout is the registered key-descriptor layout after any key roll-over.
+func (w *c08World) currentLayout() []c08KD {
+	if !w.swapped {
+		return w.k.Layout
+	}
+	var out []c08KD
+	for _, kd := range w.k.Layout {
+		n := kd
+		n.Certs = nil
+		for _, c := range kd.Certs {
+			switch {
+			case strings.HasSuffix(c.Kind, ":rsa1"):
+				c.Kind = strings.TrimSuffix(c.Kind, "rsa1") + "rsa3"
+			case strings.HasSuffix(c.Kind, ":rsa3"):
+				c.Kind = strings.TrimSuffix(c.Kind, "rsa3") + "rsa1"
+			}
+			n.Certs = append(n.Certs, c)
+		}
+		out = append(out, n)
+	}
+	return out
+}
+
+// advertisedOwnKeys: which of the addressee's two keys appear in encryption-capable descriptors of the current registration.
+func (w *c08World) advertisedOwnKeys() map[int]bool {
+	out := map[int]bool{}
+	for _, kd := range w.currentLayout() {
+		if kd.Use != "encryption" && kd.Use != "" {
+			continue
+		}
+		for _, c := range kd.Certs {
+			if strings.HasSuffix(c.Kind, ":rsa1") {
+				out[c08SPKey] = true
+			}
+			if strings.HasSuffix(c.Kind, ":rsa3") {
+				out[c08SPKey2] = true
+			}
+		}
+	}
+	return out
 }
 
 func (w *c08World) spWithKey(idx int) *saml.ServiceProvider {
@@ -532,6 +599,7 @@ func execEncrypt(t *testing.T, p *Plan) *Result {
 		panic(fmt.Sprintf("harness: cannot build SP registration: %v", err))
 	}
 	reg[md.EntityID] = md
+	w.reg = reg
 	res.logf("world layout=%s shape=%s advertised=%v dontcare=%v enc-without-x509=%v", k.LayoutName, c08Shape(k.Layout), w.exp.Advertised, w.exp.DontCare, w.exp.EncNoX509)
 	if w.exp.Advertised || w.exp.DontCare || w.exp.EncNoX509 {
 		res.Nontrivial = true
@@ -543,6 +611,16 @@ func execEncrypt(t *testing.T, p *Plan) *Result {
 		switch st.Kind {
 		case "emit":
 			stop = c08Emit(w, res, si, st)
+		case "rekey":
+			w.swapped = !w.swapped
+			md, err := c08Register(w.sp, w.currentLayout())
+			if err != nil {
+				panic(fmt.Sprintf("harness: cannot build SP registration: %v", err))
+			}
+			w.reg[md.EntityID] = md
+			res.fire("sp-key-rollover")
+			res.Nontrivial = true
+			res.logf("step %d the SP rolled its key over and re-registered (same entity ID, other certificate)", si)
 		case "inner":
 			res.Nontrivial = true
 			stop = c08Inner(w, res, si, st)
@@ -584,8 +662,13 @@ func c08Emit(w *c08World, res *Result, si int, st c08Step) bool {
 	w.idp.SessionProvider = fixedSession{sess}
 	w.idp.AssertionMaker = nil
 	w.rec.drawn, w.rec.on = nil, true
+	w.rec.reads, w.rec.failAt, w.rec.failed = 0, st.RandFailAt, false
 	rep := deliver(http.HandlerFunc(w.idp.ServeSSO), "GET", hr.URL.String(), "", "", nil)
 	w.rec.on = false
+	if w.rec.failed {
+		res.fire("entropy-read-error")
+		res.logf("step %d read %d from the encryption random source failed", si, st.RandFailAt)
+	}
 	drawn := append([]byte{}, w.rec.drawn...)
 	w.emitted++
 
@@ -688,6 +771,11 @@ func c08Emit(w *c08World, res *Result, si int, st c08Step) bool {
 	}
 	if wire != "encrypted" {
 		return false
+	}
+	// after a key roll-over the content must be recoverable with the key the registration advertises NOW
+	if adv := w.advertisedOwnKeys(); len(adv) == 1 && !adv[ownerKey] {
+		res.violate(si, "encrypted-to-retired-key", "C08/encrypted-to-retired-key", "recoverable with the key the registered metadata advertises", fmt.Sprintf("only recoverable with %s, which the SP has retired", rsaKeys[ownerKey].Name), "the registration was replaced earlier in this run")
+		return true
 	}
 	// mis-delivery: the same bytes at an SP with another key, and at Mallory
 	for _, other := range []struct {
